@@ -61,6 +61,7 @@ pub mod div {
 }
 pub mod modular_large {
     pub use crate::modular::verif_large_op;
+    pub use crate::modular::verif_inv_large;
 }
 pub mod gcd {
     pub use crate::gcd::*;
